@@ -122,7 +122,7 @@ Definition SpecD (D : list (string * value) -> res value) (sel : Z) (fl : flags)
       | Ok x => exists m' r', steps rr (List.length code) (St v mid m) r = SNext (St v mid m') r' /\
                   msame (m_sp m) m m' /\ r_ctx r' = r_ctx r /\ r_ip r' = ncs s' /\
                   (ForbidTemp fl = true -> r_tmp r' = r_tmp r) /\ opnd v (m_sp m) K A x m' r'
-      | Fail err => exists v' ip vals, steps rr (List.length code) (St v mid m) r = SErr v' (r_ctx r) ip err vals
+      | Fail err => exists me ip vals, steps rr (List.length code) (St v mid m) r = SErr (St v mid me) (r_ctx r) ip err vals
       end.
 
 Ltac conj := repeat match goal with |- _ /\ _ => split end.
@@ -235,7 +235,7 @@ Section Exec.
     match apply_binop c (r_tmp r1) x with
     | Ok y => exists m2, steps rr 1 (St v mid m1) r1 = SNext (St v mid m2) (with_ip (with_tmp r1 y) (r_ip r1 + 1)) /\
                          msame b m0 m2 /\ m_sp m2 = b
-    | Fail e => exists v' vals, steps rr 1 (St v mid m1) r1 = SErr v' (r_ctx r1) (r_ip r1) e vals
+    | Fail e => exists me vals, steps rr 1 (St v mid m1) r1 = SErr (St v mid me) (r_ctx r1) (r_ip r1) e vals
     end.
   Proof.
     intros Hat Hb Hd Ho Hk Hm.
@@ -256,7 +256,7 @@ Section Exec.
     match apply_binop c a x with
     | Ok y => exists m3, steps rr 1 (St v mid m2) r2 = SNext (St v mid m3) (with_ip r2 (r_ip r2 + 1)) /\
                          msame b m0 m3 /\ m_sp m3 = b + 1 /\ znth (m_stack m3) b = Some y
-    | Fail e => exists v' vals, steps rr 1 (St v mid m2) r2 = SErr v' (r_ctx r2) (r_ip r2) e vals
+    | Fail e => exists me vals, steps rr 1 (St v mid m2) r2 = SErr (St v mid me) (r_ctx r2) (r_ip r2) e vals
     end.
   Proof.
     intros Hat Hb Hd Hb0 Ho1 Hk1 Hm1 Ho0 Hk0 Hm2.
@@ -283,7 +283,7 @@ Section Exec.
     match unop_of c x with
     | Ok y => exists m3, steps rr 1 (St v mid m1) r1 = SNext (St v mid m3) (with_ip r1 (r_ip r1 + 1)) /\
                          msame b m0 m3 /\ m_sp m3 = b + 1 /\ znth (m_stack m3) b = Some y
-    | Fail e => exists v' vals, steps rr 1 (St v mid m1) r1 = SErr v' (r_ctx r1) (r_ip r1) e vals
+    | Fail e => exists me vals, steps rr 1 (St v mid m1) r1 = SErr (St v mid me) (r_ctx r1) (r_ip r1) e vals
     end.
   Proof.
     intros Hat Hu Hd Hb0 Ho Hk Hm.
@@ -303,7 +303,7 @@ Section Exec.
     decode instr = {| f_op := c + TempFlag; f_k0 := k0; f_k1 := k1; f_k2 := k2; f_a0 := a0; f_a1 := a1; f_a2 := a2 |} ->
     match unop_of c (r_tmp r1) with
     | Ok y => steps rr 1 (St v mid m1) r1 = SNext (St v mid m1) (with_ip (with_tmp r1 y) (r_ip r1 + 1))
-    | Fail e => exists v' vals, steps rr 1 (St v mid m1) r1 = SErr v' (r_ctx r1) (r_ip r1) e vals
+    | Fail e => exists me vals, steps rr 1 (St v mid m1) r1 = SErr (St v mid me) (r_ctx r1) (r_ip r1) e vals
     end.
   Proof.
     intros Hat Hu Hd.
@@ -339,7 +339,7 @@ Definition RunsT (D : GD) (s s2 sd : cstate) (P : list Z) : Prop :=
     match D (v_globals v) with
     | Ok a => exists m1 r1, steps rr (List.length P) (St v mid m) r = SNext (St v mid m1) r1 /\
                 msame (m_sp m) m m1 /\ m_sp m1 = m_sp m /\ r_tmp r1 = a /\ r_ctx r1 = r_ctx r /\ r_ip r1 = ncs s2
-    | Fail err => exists v' ip vals, steps rr (List.length P) (St v mid m) r = SErr v' (r_ctx r) ip err vals
+    | Fail err => exists me ip vals, steps rr (List.length P) (St v mid m) r = SErr (St v mid me) (r_ctx r) ip err vals
     end.
 
 Definition RunsK (D : GD) (keep : bool) (s s2 sd : cstate) (P : list Z) (K A : Z) : Prop :=
@@ -350,7 +350,7 @@ Definition RunsK (D : GD) (keep : bool) (s s2 sd : cstate) (P : list Z) (K A : Z
     | Ok x => exists m' r', steps rr (List.length P) (St v mid m) r = SNext (St v mid m') r' /\
                 msame (m_sp m) m m' /\ r_ctx r' = r_ctx r /\ r_ip r' = ncs s2 /\
                 (keep = true -> r_tmp r' = r_tmp r) /\ opnd v (m_sp m) K A x m' r'
-    | Fail err => exists v' ip vals, steps rr (List.length P) (St v mid m) r = SErr v' (r_ctx r) ip err vals
+    | Fail err => exists me ip vals, steps rr (List.length P) (St v mid m) r = SErr (St v mid me) (r_ctx r) ip err vals
     end.
 
 Lemma SpecD_unfold D sel fl s s' w :
